@@ -411,8 +411,22 @@ func (x *Exec) arithE(op, a, b string, t types.Type, ea, eb ast.Expr) string {
 	case "-":
 		r = tSub(a, b)
 	case "*":
-		r = tMul(a, b)
+		_, la := isIntLit(a)
+		_, lb := isIntLit(b)
+		if !la && !lb {
+			// product of two symbolic values: uninterpreted imul with linear lemma axioms (specs/05arith.spec)
+			x.c.used["imul"] = true
+			r = app("imul", a, b)
+		} else {
+			r = tMul(a, b)
+		}
 	case "/":
+		if _, lb := isIntLit(b); !lb {
+			x.c.used["idiv"] = true
+			x.c.used["imod"] = true
+			r = app("idiv", a, b)
+			break
+		}
 		if nb, ok := isIntLit(b); ok && nb > 0 && !x.nonNegSyntactic(ea) {
 			r = tIte(tGe(a, "0"), app("div", a, b), tSub("0", app("div", tSub("0", a), b)))
 		} else if x.nonNegSyntactic(ea) && x.nonNegSyntactic(eb) {
@@ -423,6 +437,12 @@ func (x *Exec) arithE(op, a, b string, t types.Type, ea, eb ast.Expr) string {
 				tIte(tGt(b, "0"), tSub("0", app("div", tSub("0", a), b)), app("div", tSub("0", a), tSub("0", b))))
 		}
 	case "%":
+		if _, lb := isIntLit(b); !lb {
+			x.c.used["idiv"] = true
+			x.c.used["imod"] = true
+			r = app("imod", a, b)
+			break
+		}
 		if nb, ok := isIntLit(b); ok && nb > 0 && !x.nonNegSyntactic(ea) {
 			r = tIte(tGe(a, "0"), app("mod", a, b), tSub("0", app("mod", tSub("0", a), b)))
 		} else if x.nonNegSyntactic(ea) && x.nonNegSyntactic(eb) {
